@@ -149,6 +149,15 @@ func main() {
 		k = 200
 	}
 	tot.evals += senderMemoryOracle(cfg, st, k)
+	// calls in flight across a redial of a client session
+	rounds := 3
+	if cfg.Tier == "thorough" {
+		rounds = 12
+	}
+	for r := 0; r < rounds; r++ {
+		tot.evals += redialScenario(st, r, []int{0, 2, 5}[r%3])
+		statCount(st, "sched:redial")
+	}
 	st.Evaluations = tot.evals
 	st.DistinctNontrivial = tot.distinct
 	st.Extra = map[string]interface{}{
